@@ -229,7 +229,7 @@ def run_c13(tier, seed, wd, info, verdict):
             meta[sid] = scs[-1]
     by = run_parallel(scs, wd, "c13")
     lines, index = [], []
-    mustfail = MUSTFAIL_MSG | {"share-replaced", "share-otherid", "vvec-alter", "vvec-short", "vvec-long-key", "vvec-long-identity", "vvec-long-poly", "vvec-short-poly"}
+    mustfail = MUSTFAIL_MSG | {"share-replaced", "share-otherid", "vvec-alter", "vvec-short", "vvec-empty", "vvec-double", "vvec-long-key", "vvec-long-identity", "vvec-long-poly", "vvec-short-poly"}
     reached, distinct = 0, set()
     for sc in scs:
         evs = by.get(sc["id"])
@@ -422,12 +422,12 @@ def run_c14(tier, seed, wd, info, verdict):
     # model: every accepted (n,t), all routings and interleavings, with repeats
     for n in range(2, 8 if tier != "quick" else 6):
         for t in range(1, n + 1):
-            r = tlc("Cluster", make_cfg(dict(N=n, T=t, ThresholdMode="gtHalf", SplitHistory=False, OutFile="x"), invariants=["NotBothThreshold"]), wd, name="Cluster_%d_%d" % (n, t), timeout=900)
+            r = tlc("Cluster", make_cfg(dict(N=n, T=t, ThresholdMode="gtHalf", SplitHistory=False, OldResets=False, OutFile="x"), invariants=["NotBothThreshold"]), wd, name="Cluster_%d_%d" % (n, t), timeout=900)
             require_ok(r, "Cluster(%d,%d)" % (n, t))
             info["states"] += r.distinct
             info["transitions"] += r.generated
-    for m, nt in ((dict(ThresholdMode="geHalf"), (4, 2)), (dict(SplitHistory=True), (3, 2))):
-        c = dict(N=nt[0], T=nt[1], ThresholdMode="gtHalf", SplitHistory=False, OutFile="x")
+    for m, nt in ((dict(ThresholdMode="geHalf"), (4, 2)), (dict(SplitHistory=True), (3, 2)), (dict(OldResets=True), (3, 2))):
+        c = dict(N=nt[0], T=nt[1], ThresholdMode="gtHalf", SplitHistory=False, OldResets=False, OutFile="x")
         c.update(m)
         rm = tlc("Cluster", make_cfg(c, invariants=["NotBothThreshold"]), wd, name="Cluster_mut")
         require_killed(rm, "Cluster mutant %s" % m, ["NotBothThreshold"])
@@ -436,7 +436,7 @@ def run_c14(tier, seed, wd, info, verdict):
     scs, meta = [], {}
     variants = ["single", "batch1", "batch2"]
     for n, t in nts:
-        c = dict(N=n, T=t, ThresholdMode="gtHalf", SplitHistory=False, OutFile="routings.json")
+        c = dict(N=n, T=t, ThresholdMode="gtHalf", SplitHistory=False, OldResets=False, OutFile="routings.json")
         r = tlc("ClusterTable", make_cfg(c), wd, name="ClusterTable_%d_%d" % (n, t), workers=1)
         require_ok(r, "ClusterTable")
         routings = json.load(open(os.path.join(wd, "ClusterTable_%d_%d" % (n, t), "routings.json")))["routings"]
@@ -444,15 +444,29 @@ def run_c14(tier, seed, wd, info, verdict):
         if tier == "quick":
             # every routing in which both duties could reach t if nothing stopped them, plus a sample of the rest
             hot = [x for x in routings if sum(1 for o in x if "A" in o) >= t and sum(1 for o in x if "B" in o) >= t]
-            routings = rnd.sample(hot, min(len(hot), 60)) + rnd.sample(routings, 20)
+            hot_old = [x for x in hot if any("O" in o for o in x)]
+            hot_plain = [x for x in hot if not any("O" in o for o in x)]
+            routings = rnd.sample(hot_plain, min(len(hot_plain), 45)) + rnd.sample(hot_old, min(len(hot_old), 30)) + rnd.sample(routings, 15)
+        elif len(routings) > 3000:
+            hot = [x for x in routings if sum(1 for o in x if "A" in o) >= t and sum(1 for o in x if "B" in o) >= t]
+            routings = rnd.sample(hot, min(len(hot), 2400)) + rnd.sample(routings, 600)
+        # the first routing on the fresh cluster carries the genesis-epoch pair: make it one in which both duties could reach t
+        first = [x for x in routings if sum(1 for o in x if "A" in o) >= t and sum(1 for o in x if "B" in o) >= t]
+        if first:
+            routings.remove(first[0])
+            routings.insert(0, first[0])
         ids = list(range(1, n + 1))
         duties, conflicts = [], []
         for ri, routing in enumerate(routings):
             e = 10 * (ri + 1)
-            ckind = ("vote", "surround", "prop")[ri % 3]
+            ckind = "genesis" if ri == 0 else ("vote", "surround", "prop")[ri % 3]
             a, b = "r%d:A" % ri, "r%d:B" % ri
             conflicts.append((a, b))
-            if ckind == "vote":
+            dold = dict(kind="att", s=0, t=0, root="O")        # the old duty: a genesis-epoch attestation, below everything on record
+            if ckind == "genesis":
+                da = dict(kind="att", s=0, t=0, root="A")
+                db = dict(kind="att", s=0, t=0, root="B")
+            elif ckind == "vote":
                 da = dict(kind="att", s=e, t=e + 1, root="A")
                 db = dict(kind="att", s=e, t=e + 1, root="B")
             elif ckind == "surround":
@@ -466,7 +480,7 @@ def run_c14(tier, seed, wd, info, verdict):
             for inst, order in zip(ids, routing):
                 if order == "-":
                     continue
-                seqs.append([(inst, ch) for ch in order])
+                seqs.append([(inst, ch) for ch in order if not (ch == "O" and ckind == "genesis")])
             flat = []
             while seqs:
                 sq = rnd.choice(seqs)
@@ -476,8 +490,8 @@ def run_c14(tier, seed, wd, info, verdict):
             if ri % 4 == 3:
                 flat = flat + [(inst, ch) for inst, ch in flat]     # repeats
             for qi, (inst, ch) in enumerate(flat):
-                base = dict(da if ch == "A" else db)
-                base.update(inst=inst, duty=a if ch == "A" else b, variant=variants[(ri + qi + inst) % 3] if base["kind"] == "att" else "single",
+                base = dict(da if ch == "A" else (db if ch == "B" else dold))
+                base.update(inst=inst, duty=a if ch == "A" else (b if ch == "B" else "r%d:O" % ri), variant=variants[(ri + qi + inst) % 3] if base["kind"] == "att" else "single",
                             by=("name", "key")[(ri + qi) % 2], filler=1000 * (ri + 1) + 10 * qi + inst)
                 duties.append(base)
         sid = "C14-%d-%d" % (n, t)
@@ -590,7 +604,7 @@ def replay(prop, path):
             project_calls(sc["id"], sc, evs, lines, {"signer-1", "signer-2", "signer-3"})
             inv = ["Lifecycle", "PeersOnly"]
         else:
-            project_gen(sc["id"], sc, evs, lines, MUSTFAIL_MSG | {"share-replaced", "share-otherid", "vvec-alter", "vvec-short", "vvec-long-key", "vvec-long-identity", "vvec-long-poly", "vvec-short-poly"})
+            project_gen(sc["id"], sc, evs, lines, MUSTFAIL_MSG | {"share-replaced", "share-otherid", "vvec-alter", "vvec-short", "vvec-empty", "vvec-double", "vvec-long-key", "vvec-long-identity", "vvec-long-poly", "vvec-short-poly"})
             inv = ["Agreement", "ThresholdRule", "FaultNoAccount", "PeersOnly", "NoCrash"]
         for ln in lines:
             print(json.dumps(ln)[:400])
